@@ -86,7 +86,7 @@ def run(tier):
                 S1 = S1 or (in_ok and not stray)
                 S2 = S2 or (out_ok and not stray)
             if c['inv'] & ~(32 | 64 | 128):
-                return 'scheduler counter invariant broken (%d)' % c['inv']
+                return 'invariant broken: ' + sched.inv_text(c['inv'] & ~(32 | 64 | 128), c.get('note', ''))
             if k == 'signal' and code == 9:
                 if in_ok or out_ok:
                     return None
